@@ -160,3 +160,69 @@ Example C16B_nonvacuous :
   RunC16B.run (RunC16B.scale_compact_encode 536 [1; 0; 0; 0; 0; 0; 0; 0; 0]) = Panic /\
   RunC16B.spec (RunC16B.scale_compact_encode 64 [0x4000]) (Val [TY [2; 0; 1; 1]]) = false.
 Proof. vm_compute. repeat split. Qed.
+
+(* ======================= C16C.part ======================= *)
+(* Properties/C16.v — TEMPORARY umbrella with part C only (the coordinator merges the parts).
+   Every codec integration round-trips and emits its format's reference encoding; part C =
+   num-bigint, primitive-types, bytemuck, postgres, ark-ff 0.3 / 0.4.
+   Only pinned statements, `exact`, and Print Assumptions live here. *)
+From Coq Require Import ZArith List Bool.
+From RV.Model Require Import Base Word.
+From RV.Model Require Bytes CodecC.
+From RV.Spec Require FmtC.
+From RV.Run Require RunC16C RunC17C.
+From RV.Proofs Require PfC16C.
+Import ListNotations.
+Local Open Scope Z_scope.
+
+(* For every call of RunC16C (every width >= 0 where the integration exists, every canonical
+   value): the encoder's output is the reference representation of Spec/FmtC.v (the value for
+   BigUint/BigInt, the little-endian limb array for primitive-types / ark / bytemuck, the postgres
+   wire format per column type), encoding fails with an error (never a panic) exactly when the
+   value does not fit the column type, conversions into Uint from fixed-width foreign integers
+   succeed exactly by range (`From` panics on an unrepresentable value), Fp conversions succeed
+   exactly below the modulus, and decode(encode a) = a (postgres: for every non-float column type
+   whose encoding succeeds). *)
+Theorem C16C_holds : forall c : RunC16C.call, RunC16C.wf c -> RunC16C.spec c (RunC16C.run c) = true.
+Proof. exact PfC16C.C16C_all. Qed.
+Check C16C_holds : forall c : RunC16C.call, RunC16C.wf c -> RunC16C.spec c (RunC16C.run c) = true.
+Print Assumptions C16C_holds.
+
+(* postgres ToSql, Prop level: for a non-float column type the model writes exactly the reference
+   bytes when there are some and returns an error otherwise. *)
+Theorem C16C_pg_to_sql : forall bits ty a,
+  0 <= bits -> canon bits a -> FmtC.is_float ty = false ->
+  exists e, CodecC.pg_to_sql bits ty a =
+    Val (match FmtC.pg_ref_encode bits ty (eval a) with
+         | Some bs => BaseConv.Ok bs | None => BaseConv.Err e end).
+Proof. exact PfC16C.pg_to_sql_enc. Qed.
+Check C16C_pg_to_sql : forall bits ty a,
+  0 <= bits -> canon bits a -> FmtC.is_float ty = false ->
+  exists e, CodecC.pg_to_sql bits ty a =
+    Val (match FmtC.pg_ref_encode bits ty (eval a) with
+         | Some bs => BaseConv.Ok bs | None => BaseConv.Err e end).
+Print Assumptions C16C_pg_to_sql.
+
+(* the reference decoder inverts the reference encoder: any answer the decoding specification
+   accepts for the reference bytes of v is Ok v *)
+Theorem C16C_ref_roundtrip : forall bits ty v bs,
+  0 <= bits -> 0 <= v < 2 ^ bits -> FmtC.pg_ref_encode bits ty v = Some bs ->
+  Forall Bytes.isbyte bs /\
+  forall r, RunC17C.spec_pg bits ty bs (Val (RunC16C.fsres_toks r)) = true ->
+            r = BaseConv.Ok (uint_of bits v).
+Proof. exact PfC16C.ref_encode_inv. Qed.
+Check C16C_ref_roundtrip : forall bits ty v bs,
+  0 <= bits -> 0 <= v < 2 ^ bits -> FmtC.pg_ref_encode bits ty v = Some bs ->
+  Forall Bytes.isbyte bs /\
+  forall r, RunC17C.spec_pg bits ty bs (Val (RunC16C.fsres_toks r)) = true ->
+            r = BaseConv.Ok (uint_of bits v).
+Print Assumptions C16C_ref_roundtrip.
+
+(* non-vacuity: NUMERIC of 2^64 - 1 in a Uint<64> (the crate's test vector class), and the
+   round trip through VARBIT at a width that is not a multiple of 8 *)
+Example C16C_nonvacuous :
+  RunC16C.run (RunC16C.pg_to_sql 64 16 [0xffffffffffffffff])
+    = Val [TY [0;5; 0;4; 0;0; 0;0; 0x07;0x34; 0x1a;0x58; 0x02;0xe1; 0x03;0xbb; 0x06;0x4f]]
+  /\ RunC16C.run (RunC16C.pg_rt 7 10 [0x55]) = Val [TSome; TL [0x55]]
+  /\ RunC16C.run (RunC16C.pg_to_sql 7 10 [0x55]) = Val [TY [0;0;0;7; 0xaa]].
+Proof. vm_compute. repeat split. Qed.
